@@ -167,6 +167,8 @@ class C02(Prop):
         "(they share no state in the model; the scripted runs serialise event delivery)",
         "kernel pipe buffering / pty line discipline (CRLF translation, echo) -- real-child runs are tests",
         "Windows newline normalisation in _collate_result",
+        "time: the model has no clock; that a slow consumer of the mirrored text does not cost captured output "
+        "is checked by one scripted case (corpus: slow out_stream) and one real child (36 KB, slow out_stream)",
         "Local.read_proc_stdout/err (os.read, EIO-as-EOF) are exercised only by the real-child runs",
     ]
 
@@ -198,8 +200,11 @@ class C02(Prop):
         enc_from = rng.choice(["kwarg", "kwarg", "config"])
         if DEFAULT_ENC == enc and rng.random() < 0.3:
             enc_from = "default"
+        enc_cfg = None
+        if enc_from == "kwarg" and rng.random() < 0.3:
+            enc_cfg = rng.choice([e for e in ENC if e != enc])      # the keyword must win over the config
         return {
-            "enc_from": enc_from,
+            "enc_from": enc_from, "enc_cfg": enc_cfg,
             "events": evs, "enc": enc, "hide": rng.choice(list(HIDE)),
             "out_given": rng.random() < 0.3, "err_given": rng.random() < 0.3,
             "pty": pty, "async": rng.random() < 0.15, "warn": rng.random() < 0.5,
@@ -249,8 +254,13 @@ class C02(Prop):
 
     def to_coq(self, case, obs):
         so, se = scripts_of(case)
-        i = "(mkIn %s %s %s %s %s %s %s %s)" % (
-            ENC[case["enc"]], so, se, HIDE[case["hide"]], ct.b(case["out_given"]), ct.b(case["err_given"]),
+        ef = case.get("enc_from", "kwarg")
+        kw = "(Some %s)" % ENC[case["enc"]] if ef == "kwarg" else "None"
+        cf = "(Some %s)" % ENC[case["enc"]] if ef == "config" else \
+            ("(Some %s)" % ENC[case["enc_cfg"]] if case.get("enc_cfg") else "None")
+        loc = ENC[DEFAULT_ENC] if DEFAULT_ENC else ENC[case["enc"]]
+        i = "(mkIn (effective_encoding %s %s %s) %s %s %s %s %s %s %s)" % (
+            kw, cf, loc, so, se, HIDE[case["hide"]], ct.b(case["out_given"]), ct.b(case["err_given"]),
             ct.b(case["pty"]), ct.b(case["async"]))
         o = "(mkObs %s %s %s %s %s %s)" % (
             text(obs["stdout"]), text(obs["stderr"]), text(obs["out_stream"]), text(obs["err_stream"]),
@@ -337,6 +347,10 @@ class C02(Prop):
                 for _ in range(reps):
                     cuts = sorted(set(c for c in (rng.randrange(0, len(data) + 1, align) for _ in range(3))
                                       if 0 < c < len(data)))
+                    if align > 1 and data and rng.random() < 0.5:
+                        # the FIRST read shorter than one code unit: the incremental decoder holds it back and
+                        # refuses on the next read; the fallback must re-prepend what was held
+                        cuts = sorted(set([rng.randrange(1, align)] + cuts))
                     parts, last = [], 0
                     for c in cuts + [len(data)]:
                         if c > last:
@@ -416,6 +430,7 @@ class C02(Prop):
         cases.append({"kind": "utf16", "bom": True})
         cases.append({"kind": "sjis"})
         cases.append({"kind": "unhidden"})
+        cases.append({"kind": "slow-mirror"})
         reps = 1 if tier == "quick" else 5
         fails, evals = [], 0
         for c in cases * reps:
@@ -461,6 +476,24 @@ def special_child_case(c):
         r = rc.run_real("printf '%s'" % "".join("\\%03o" % b for b in data), encoding="shift_jis", hide=True,
                         in_stream=False)
         want = data.decode("shift_jis", "replace")
+    elif k == "slow-mirror":
+        # the command exits at once after writing 36 KB; the (unhidden) mirror stream is slow: nothing may be cut off
+        out = rc.Recorder(delay=0.075)
+        data = ("%07d\n" % 0).join("x" * 0 for _ in range(1))
+        data = "".join("%07d\n" % i for i in range(4500))          # 36000 bytes
+        import tempfile
+        fd, path = tempfile.mkstemp(prefix="c02-slow-", dir=core.BUILD)
+        os.write(fd, data.encode())
+        os.close(fd)
+        try:
+            r = rc.run_real("cat %s" % path, encoding="utf-8", out_stream=out, in_stream=False, bound=30)
+        finally:
+            os.unlink(path)
+        if r["hang"] or r["outcome"] != "Result":
+            return {"case": c, "what": "outcome %s" % r["outcome"]}
+        if r["stdout"] == data and out.text() == data:
+            return None
+        return {"case": c, "what": {"payload": len(data), "captured": len(r["stdout"]), "mirrored": len(out.text())}}
     elif k == "unhidden":
         out, err = rc.Recorder(), rc.Recorder()
         r = rc.run_real("cat; echo oops >&2", encoding="utf-8", out_stream=out, err_stream=err, echo_stdin=True,
@@ -482,7 +515,7 @@ def special_child_case(c):
 
 
 def real_child_case(c):
-    if c["kind"] in ("crlf", "utf16", "sjis", "unhidden"):
+    if c["kind"] in ("crlf", "utf16", "sjis", "unhidden", "slow-mirror"):
         return special_child_case(c)
     out, enc = payload(c["kind"], c["n_out"], "o")
     err, _ = payload(c["kind"], c["n_err"], "e")
